@@ -9,10 +9,10 @@ from ..core import pyfacts as pf
 from ..core import sibling
 from ..core.match import txt
 from ..core.source import AnchorMissing, site_packages_file
-from .common import A2G, GOOFIT, MAIN, ckey, enclosing, fn, stmt_of, where
+from .common import A2G, ACHAIN, GOOFIT, MAIN, ckey, enclosing, fn, stmt_of, where
 
 PROP = "C19"
-FILES = [GOOFIT, A2G, MAIN]
+FILES = [GOOFIT, A2G, MAIN, ACHAIN]
 EXPLANATION = (
     "C19.1 single sink: in a converter that binds `printer`, every piece of output goes through it (no other call of the "
     "builtin print), so the returned string is what would be printed; C19.2 coefficient names: in both generators and in "
@@ -32,6 +32,8 @@ CONV = ("ampgen2goofit", "ampgen2goofitpy")
 def run(ctx, ss):
     for r, f in (("C19.1", c19_1), ("C19.2", c19_2), ("C19.3", c19_3), ("C19.4", c19_4), ("C19.5", c19_5), ("C19.6", c19_6), ("C19.7", c19_7)):
         ctx.guard(r, f, ss)
+    from .c20 import c20_1
+    ctx.guard("C19.8", c20_1, ss, lambda r: "C19.8")
 
 
 def _printer_name(flow):
@@ -261,7 +263,10 @@ def c19_5(ctx, ss):
     k = f"{A2G}:converters :: siblings"
     dif = sibling.diff(sa, sb)
     dh = sibling.diff(ha, hb)
-    if not dif and not dh:
+    dl = [] if (dif or dh) else sibling.logic_diff(a.node, b.node, REN)
+    if dl:
+        ctx.violation("C19.5", k, where(b, b.node), f"the two converters compute different things outside the printed text: C++ `{dl[0][0][:80]}` vs Python `{dl[0][1][:80]}`")
+    elif not dif and not dh:
         ctx.holds("C19.5", k, where(b, b.node), f"the two converters have the same control skeleton (up to literal-only print lines) and the same {len(ha)} data holes", len(sa) + len(ha))
     else:
         d = (dif or dh)[0]
@@ -372,3 +377,24 @@ def c19_7(ctx, ss):
         else:
             ctx.violation("C19.7", k, where(main, main.node), f"the command-line switch accepts -G {g} but main() has no branch for it: nothing is generated")
     ctx.floor("C19.7", "generator kinds", len(names), 2)
+    # the command line discards the converter's return value, so the converter must print: effective ret_output is False
+    for st in pf.iter_stmts(main.node.body):
+        if isinstance(st, ast.Expr) and isinstance(st.value, ast.Call) and txt(st.value.func) in want.values():
+            c = st.value
+            conv, _ = fn(ss, A2G, txt(c.func))
+            a = conv.node.args
+            names_ = [x.arg for x in a.args]
+            eff = None
+            if "ret_output" in names_:
+                i = names_.index("ret_output")
+                di = i - (len(names_) - len(a.defaults))
+                eff = a.defaults[di] if di >= 0 else None
+                if len(c.args) > i:
+                    eff = c.args[i]
+                for kw in c.keywords:
+                    if kw.arg == "ret_output":
+                        eff = kw.value
+            okp = isinstance(eff, ast.Constant) and eff.value is False
+            (ctx.holds if okp else ctx.violation)("C19.7", f"{MAIN}:{txt(c.func)} :: prints", where(main, st),
+                                                  f"{txt(c.func)} is run in printing mode from the command line" if okp
+                                                  else f"the command line discards the result of {txt(c.func)}(…) but the effective ret_output is `{txt(eff) if eff is not None else '?'}`: nothing is printed")
